@@ -86,7 +86,7 @@ FC_FN = ["Frame::from_bytes", "Frame::from_reader", "Frame::read_crc", "ReaderCr
 
 def dfh(name, b0, b4=-1, props=(), tier="quick", timeout=900, feats=("std",)):
     add(name, "adsb_deku", F + "obl_df", args="0x%02x, %d" % (b0, b4), props=list(props),
-        unwind=12, tier=tier, timeout=timeout, kani_flags=FAST, features=feats, functions=DF_FN,
+        unwind=16, tier=tier, timeout=timeout, kani_flags=FAST, features=feats, functions=DF_FN,
         domain="complete frames with byte 0 = 0x%02x%s, every other bit symbolic" % (b0, (", byte 4 = 0x%02x" % b4) if b4 >= 0 else ""))
 
 
@@ -141,7 +141,7 @@ for _nm, _b0, _b4, _need in (("df00", 0x02, -1, 7), ("df11", 0x5d, -1, 7), ("df1
                               ("df16", 0x80, -1, 14), ("df24", 0xc5, -1, 14), ("df19", 0x98, -1, 14), ("df15", 0x78, -1, 14)):
     for _len in (0, 1, 2, 3, 4, 5, 6, 7, 8, 13, 14, 15, 20, 32):
         _short = _len < _need
-        _quick = (_len in (0, _need - 1, _need, _need + 1, 32) and _nm in ("df11", "df17", "df19", "df24")) or (_nm == "df17" and _len in (4, 7)) or (_len == _need)
+        _quick = ((_len in (0, _need - 1, _need, _need + 1, 32) and _nm in ("df11", "df17", "df19", "df24")) or (_nm == "df17" and _len in (4, 7)) or (_len == _need)) and _nm != "df20"
         fch("fc_%s_%02d" % (_nm, _len), _len, _b0, _b4 if _len > 4 else -1,
             tier="quick" if _quick else "thorough", feats=("alloc",) if _short else ("std", "alloc") if _quick else ("std",))
 
@@ -153,6 +153,66 @@ add("vel_calc", "adsb_deku", V + "obl_velocity_calc", props=["C07", "C01", "C20"
     stubs=["libm::atan2 => crate::verif_obl_vel::atan2_stub", "libm::hypot => crate::verif_obl_vel::hypot_stub"],
     domain="all subtypes x all 2^22 velocity words x all 2^10 vertical-rate codes; atan2/hypot results arbitrary within the stated envelope",
     functions=["adsb::AirborneVelocity::calculate", "Sign::value"])
+
+P = "crate::cpr::verif_cpr::"
+PM_STUB = "crate::cpr::positive_mod => crate::cpr::verif_cpr::positive_mod_contract"
+add("cpr_nl", "adsb_deku", P + "obl_cpr_nl", props=["C05", "C01", "C20"], stubs=[], unwind=60, features=("std", "alloc"),
+    domain="all 2^64 f64 values incl. NaN and infinities", functions=["cpr::cpr_nl"])
+add("cpr_pos_lat", "adsb_deku", P + "obl_get_position", args="1", props=["C05", "C01", "C20"], stubs=[PM_STUB], unwind=60, features=("std", "alloc"),
+    domain="all parities x all 2^34 latitude pairs, longitudes fixed (51372, 50194)", timeout=1800,
+    functions=["cpr::get_position", "cpr::get_lat_lon", "cpr::cpr_nl"], bounded="longitudes fixed to one pair (the latitude / consistency clauses do not depend on them)")
+add("cpr_pos_full", "adsb_deku", P + "obl_get_position", args="0", props=["C05", "C01"], stubs=[PM_STUB], unwind=60, tier="thorough",
+    domain="all parities x all 2^68 raw (lat, lon, lat, lon) quadruples", timeout=7200,
+    functions=["cpr::get_position", "cpr::get_lat_lon", "cpr::cpr_nl"])
+add("cpr_posmod_native", "adsb_deku", P + "obl_positive_mod_native", props=["C05-native"], stubs=[], tier="native",
+    domain="native: all integer a in [-130,130], b in 1..=60", functions=["cpr::positive_mod"])
+
+# ---- E-T tracker (rsadsb_common) ---------------------------------------------------------------
+T = "crate::verif_obl_tracker::"
+ENTRY = "crate::Airplanes::entry_or_insert => crate::verif_obl_tracker::entry_stub"
+GP = "adsb_deku::cpr::get_position => crate::verif_obl_tracker::gp_stub"
+HV = "crate::AirplaneCoor::haversine_distance => crate::verif_obl_tracker::hv_stub"
+CALC = "adsb_deku::adsb::AirborneVelocity::calculate => crate::verif_obl_tracker::calc_stub"
+GET = "crate::Airplanes::get => crate::verif_obl_tracker::get_stub"
+NOW = "std::time::SystemTime::now => crate::verif_obl_tracker::now_stub"
+TRK_FN = ["Airplanes::action", "Airplanes::update_position", "AirplaneCoor::update_position", "Airplanes::incr_messages",
+          "Airplanes::add_identification", "Airplanes::add_airborne_velocity"]
+for _mask in range(8):
+    for _w in range(3):
+        add("trk_entry_m%d_k%d" % (_mask, _w), "rsadsb_common", T + "obl_entry_or_insert", args="%d, %d" % (_mask, _w),
+            props=["C12", "C01"], stubs=["fmt"], unwind=6, features=("alloc",), tier="quick" if (_mask, _w) in ((0, 0), (1, 0), (6, 0), (7, 1), (5, 1), (3, 2)) else "thorough",
+            bounded="3 fixed addresses, <= 3 records, light record contents (BTreeMap parametricity assumed beyond)",
+            domain="map holding subset %d of {A,B,C}, request for key %d" % (_mask, _w), functions=["Airplanes::entry_or_insert"], timeout=600)
+for _d in (0, 1):
+    _n = "df18" if _d else "df17"
+    _b = "true" if _d else "false"
+    add("trk_pos_" + _n, "rsadsb_common", T + "obl_action_position", args=_b, props=["C12", "C13", "C14", "C01"], stubs=["fmt", ENTRY, GP, HV], unwind=6,
+        features=("alloc",), domain="fully symbolic record x symbolic position report x receiver x range (non-NaN) x arbitrary pairing / distance results",
+        functions=TRK_FN, timeout=1200)
+    add("trk_ident_" + _n, "rsadsb_common", T + "obl_action_ident", args=_b, props=["C12", "C14", "C01"], stubs=["fmt", ENTRY], unwind=6,
+        features=("alloc",), domain="fully symbolic record x identification report", functions=TRK_FN, timeout=900)
+    add("trk_vel_" + _n, "rsadsb_common", T + "obl_action_velocity", args=_b, props=["C12", "C14", "C01"], stubs=["fmt", ENTRY, CALC], unwind=6,
+        features=("alloc",), domain="fully symbolic record x velocity report with arbitrary derived velocity", functions=TRK_FN, timeout=900)
+    add("trk_other_" + _n, "rsadsb_common", T + "obl_action_other_me", args=_b, props=["C12", "C01"], stubs=["fmt", ENTRY], unwind=8,
+        features=("alloc",), domain="fully symbolic record x other payload types", functions=TRK_FN, timeout=900)
+add("trk_non_es", "rsadsb_common", T + "obl_action_non_es", props=["C12", "C01"], stubs=["fmt", ENTRY], unwind=6, features=("alloc",),
+    domain="DF5 / DF11 / DF19 / DF24 frames with symbolic contents", functions=["Airplanes::action"], timeout=900)
+add("trk_details", "rsadsb_common", T + "obl_details", props=["C14", "C01"], stubs=["fmt", GET], unwind=6, features=("alloc",),
+    domain="fully symbolic record", functions=["Airplanes::aircraft_details", "AirplaneCoor::altitude"], timeout=900)
+for _mask, _pm in ((0, 0), (7, 0), (7, 7), (7, 5), (7, 2), (5, 4), (2, 2), (3, 1)):
+    add("trk_allpos_%d_%d" % (_mask, _pm), "rsadsb_common", T + "obl_all_position", args="%d, %d" % (_mask, _pm), props=["C14", "C01"], stubs=["fmt"], unwind=6,
+        features=("alloc",), bounded="<= 3 records, concrete contents", tier="quick" if (_mask, _pm) in ((7, 5), (0, 0), (3, 1)) else "thorough",
+        domain="map subset %d with positions on %d" % (_mask, _pm), functions=["Airplanes::all_position"], timeout=600)
+add("trk_incr_time", "rsadsb_common", T + "obl_incr_time", props=["C15", "C12", "C01"], stubs=["fmt", ENTRY, NOW], unwind=6, features=("std",),
+    domain="fully symbolic record x all 2^32 clock values", functions=["Airplanes::incr_messages"], timeout=900)
+_PR = [(100, 100, 90, 80, 10), (100, 91, 90, 89, 10), (100, 100, 100, 100, 0), (100, 50, 150, 100, 20), (5, 0, 5, 3, 3), (1000, 999, 0, 500, 1000)]
+for _i, (_now, _a, _b2, _c, _thr) in enumerate(_PR):
+    add("trk_prune_%d" % _i, "rsadsb_common", T + "obl_prune", args="%d, %d, %d, %d, %d" % (_now, _a, _b2, _c, _thr), props=["C15", "C01"],
+        stubs=["fmt", NOW], unwind=8, features=("std",), bounded="3 records, concrete clock / last-heard / threshold values around the boundary",
+        tier="quick" if _i < 4 else "thorough", domain="now=%d last-heard=(%d,%d,%d) T=%d" % (_now, _a, _b2, _c, _thr), functions=["Airplanes::prune"], timeout=600)
+
+add("frame_any_native", "adsb_deku", F + "obl_frame_any", props=["native-oracle"], stubs=[], tier="native",
+    domain="native oracle: any buffer of 0..=32 bytes", functions=["Frame::from_bytes"])
 
 
 def select(prop, tier):
